@@ -87,6 +87,9 @@ pub struct Machine<'p> {
     pub max_steps: u64,
     pub taken: u64,
     pub max_depth: usize,
+    /// Deviation model (known finding): unsigned 64-bit comparisons against an immediate
+    /// zero-extend it instead of sign-extending it.
+    pub quirk_zext_jmp_imm: bool,
 }
 
 fn cells_of(bytes: &[u8]) -> Vec<Cell> {
@@ -139,6 +142,7 @@ impl<'p> Machine<'p> {
             max_steps: 200_000,
             taken: 0,
             max_depth: 0,
+            quirk_zext_jmp_imm: false,
         }
     }
 
@@ -429,7 +433,14 @@ impl<'p> Machine<'p> {
                 }
                 Kind::Jcc { cond, is32, reg } => {
                     let a = self.reg[d];
-                    let b = if reg { self.reg[s] } else { Val::Int(i.imm as i64 as u64) };
+                    let zext = self.quirk_zext_jmp_imm && !is32 && matches!(cond, Cond::Eq | Cond::Ne | Cond::Gt | Cond::Ge | Cond::Lt | Cond::Le);
+                    let b = if reg {
+                        self.reg[s]
+                    } else if zext {
+                        Val::Int(i.imm as u32 as u64)
+                    } else {
+                        Val::Int(i.imm as i64 as u64)
+                    };
                     match (a, b) {
                         (Val::Int(a), Val::Int(b)) => {
                             if Self::cond(cond, is32, a, b) {
